@@ -13,12 +13,12 @@
 //	          (hook VerifC15PrefetchProbe: fetchAsync runs synchronously inside Scan, so this is decided when
 //	          Scan returns); if it has: wait until the node has received the request carrying this page's
 //	          paging state (the goroutine exists), then until that fetch is complete (nextIter.fetch)
-//	          -> a0 not started (now disarmed) | a1 started | a2 probed before | a3 no next page
+//	          -> a0 not started (now disarmed) | a1 started | a2 probed before | a3 no next page | a9 started, but its request never arrived
 //	    d     drain with the consumer -> `d=<rows>`     D  drain with SliceMap -> `D=<rows>` | `D=nil`
 //	  then: Close() / Scanner.Err(), an un-probed prefetch is awaited as in `a`, and the node's request log is read.
 //
 // DETERMINISM: whether the prefetch was started is read off the real nextIter (not predicted); if it was,
-// its request WILL arrive (waited for without a deadline that matters: 20 s = `hang`), if it was not, no
+// its request WILL arrive (waited for without a deadline that matters: 8 s, then `a9`), if it was not, no
 // goroutine exists that could send one. So the request log at the moment of abandonment is exact.
 package main
 
@@ -317,7 +317,7 @@ func (env *walkEnv) walk(sc walkScen) string {
 			}
 			// started: the goroutine exists, so its request arrives
 			want := c.PageState()
-			deadline := time.Now().Add(20 * time.Second)
+			deadline := time.Now().Add(8 * time.Second)
 			for {
 				mu.Lock()
 				seenIt := false
@@ -331,7 +331,7 @@ func (env *walkEnv) walk(sc walkScen) string {
 					break
 				}
 				if time.Now().After(deadline) {
-					panic("prefetch started but its request never arrived")
+					return 9 // oncea has fired but no request arrives: no goroutine is fetching (not a crash of gocql: a disagreement of op walko)
 				}
 				time.Sleep(50 * time.Microsecond)
 			}
